@@ -187,7 +187,6 @@ func runRetryAll(t *testing.T, res *hx.Result) {
 	workers := 12
 	for w := 0; w < workers; w++ {
 		wg.Add(1)
-		wrnd := rand.New(rand.NewSource(hx.Seed()*7919 + int64(w)))
 		go func() {
 			defer wg.Done()
 			env, err := newRetryEnv(maxN)
@@ -202,7 +201,9 @@ func runRetryAll(t *testing.T, res *hx.Result) {
 			defer env.close()
 			for idx := range jobs {
 				c := cases[idx]
-				concretise(&c, wrnd)
+				// a function of (seed, case) - not of which worker happens to take the case -, so
+				// that two runs with one seed ask the same questions
+				concretise(&c, rand.New(rand.NewSource(hx.Seed()*1000003+int64(idx)*7919+1)))
 				if hx.SelfTest() {
 					// corrupt the expectation: the body the backends must receive is one byte longer
 					o, err := env.runRetry(&c)
